@@ -117,6 +117,17 @@ func (p *Package) Reachable() map[reflect.Type]bool {
 	u := p.Universe()
 	seen := map[reflect.Type]bool{}
 	var visit func(t reflect.Type)
+	var visitFields func(t reflect.Type)
+	visitFields = func(t reflect.Type) {
+		for i := 0; i < t.NumField(); i++ {
+			f := t.Field(i)
+			if f.Anonymous && f.Type.Kind() == reflect.Struct && !refwire.IsTimeLike(f.Type) {
+				visitFields(f.Type)
+			} else if f.Tag.Get("gomacro") != "ignore" {
+				visit(f.Type)
+			}
+		}
+	}
 	visit = func(t reflect.Type) {
 		if seen[t] {
 			return
@@ -128,10 +139,17 @@ func (p *Package) Reachable() map[reflect.Type]bool {
 				return
 			}
 			for i := 0; i < t.NumField(); i++ {
-				if t.Field(i).Tag.Get("gomacro") == "ignore" {
+				f := t.Field(i)
+				if f.Tag.Get("gomacro") == "ignore" {
 					continue
 				}
-				visit(t.Field(i).Type)
+				if f.Anonymous && f.Type.Kind() == reflect.Struct && !refwire.IsTimeLike(f.Type) {
+					// embedded structs are flattened by the analysis: their fields are reached,
+					// the embedded type itself is not a node (it gets no code of its own)
+					visitFields(f.Type)
+					continue
+				}
+				visit(f.Type)
 			}
 		case reflect.Slice, reflect.Array, reflect.Pointer:
 			visit(t.Elem())
